@@ -83,9 +83,12 @@ def sub_result(S, fr):
 
 
 def register(R: Registry):
-    def setup(S):
-        n = S.int("n")
-        S.assume(n.z >= 0)
+    def setup(S, size=None):
+        if size is None:
+            n = S.int("n")
+            S.assume(n.z >= 0)
+        else:
+            n = int(size)  # a table of exactly `size` entries
         sid, spid = S.arr("int", n=n, name="sub_id"), S.arr("int", n=n, name="sub_pid")
         sid.frozen = spid.frozen = True
         return dict(sub=(sid, spid))
@@ -117,15 +120,13 @@ def register(R: Registry):
 
         return f
 
-    R.add(
-        f"{SUB}:to_sub_topology",
-        prop="C06",
-        setup=setup,
-        requires=[sub_pre("same-length"), sub_pre("kept-ids-pairwise-distinct"), sub_pre("kept-parents-are-kept-entries")],
-        returns=sub_result,
-        ensures=[("mapping-is-the-kept-ids-in-order", post("mapping")), ("new-ids-are-positions", post("ids")),
-                 ("parents-remapped-roots-kept", post("pids")), ("outputs-are-fresh", post("fresh"))],
-    )
+    ST = dict(requires=[sub_pre("same-length"), sub_pre("kept-ids-pairwise-distinct"), sub_pre("kept-parents-are-kept-entries")],
+              returns=sub_result,
+              ensures=[("mapping-is-the-kept-ids-in-order", post("mapping")), ("new-ids-are-positions", post("ids")),
+                       ("parents-remapped-roots-kept", post("pids")), ("outputs-are-fresh", post("fresh"))])
+    R.add(f"{SUB}:to_sub_topology", prop="C06", setup=setup, **ST)
+    # the same contract on tables of a fixed small number of entries (ids, parents and removal marks symbolic)
+    R.add(f"{SUB}:to_sub_topology", prop="C06", variants={fixed_name(m): (lambda S, m=m: setup(S, size=m)) for m in FIXED_SIZES}, **ST, notes=FIXED_NOTE)
 
 
 # =========================================================================== propagate_removal (traverse client rule)
@@ -240,9 +241,9 @@ def register_subtree(R):
     I = z3.IntSort()
     sel = z3.Select
 
-    def wf_tree(S, name="t"):
+    def wf_tree(S, name="t", size=None):
         """a well-formed input tree (ids = positions, node 0 the root, parents exist, depth witness) with an extra column; frozen"""
-        t = sym_tree(S, name, frozen=True, extra_cols=(EXTRA6,))
+        t = raw_tree(S, name, size=size)
         n = nof(t)
         i = z3.Int(fresh_name("i"))
         idc, pid = col(t, "id").arr, col(t, "pid").arr
@@ -268,9 +269,9 @@ def register_subtree(R):
         return a, z3.IntVal(len(L.items))
 
     # ------------------------------------------------------------------ to_subtree_impl
-    def impl_setup(kind):
+    def impl_setup(kind, size=None):
         def f(S):
-            t = wf_tree(S)
+            t = wf_tree(S, size=size)
             n = nof(t)
             sid, spid = S.arr("int", n=S.int("sn"), name="sub_id"), S.arr("int", name="sub_pid")
             out = None if kind == "none" else (PList([7, 8]) if kind == "list" else S.pdict("int", name="out_mapping"))
@@ -356,12 +357,16 @@ def register_subtree(R):
         nd = PDict({c: SArr.fresh(a.kind, m.z, name="sub_" + c) for c, a in all_cols(t).items()})
         return (m, nd, t.fields["source"], t.fields["names"])
 
+    TI = dict(requires=[sub_pre("same-length"), sub_pre("kept-ids-pairwise-distinct"), sub_pre("kept-parents-are-kept-entries"), ("kept-ids-are-nodes-of-the-tree", impl_pre_inrange)],
+              ensures=[(nm, impl_post(nm)) for nm in IMPL_POSTS],
+              loops=DICT_LOOP)
     R.add(f"{IMPL}:to_subtree_impl", prop="C06",
           variants={"no-mapping-requested": impl_setup("none"), "mapping-into-a-list": impl_setup("list"), "mapping-into-a-dict": impl_setup("dict")},
-          requires=[sub_pre("same-length"), sub_pre("kept-ids-pairwise-distinct"), sub_pre("kept-parents-are-kept-entries"), ("kept-ids-are-nodes-of-the-tree", impl_pre_inrange)],
-          ensures=[(nm, impl_post(nm)) for nm in IMPL_POSTS],
-          loops=DICT_LOOP,
-          notes="out_mapping: None, a list or a dict (any previous content is discarded)")
+          **TI, notes="out_mapping: None, a list or a dict (any previous content is discarded)")
+    # the same contract on trees of a fixed small number of rows (the marked table keeps its symbolic length)
+    R.add(f"{IMPL}:to_subtree_impl", prop="C06",
+          variants={f"{fixed_name(m)}, {nm}": impl_setup(kind, size=m) for m in FIXED_SIZES for kind, nm in (("none", "no-mapping-requested"), ("dict", "mapping-into-a-dict"))},
+          **TI, notes=FIXED_NOTE)
 
     # ------------------------------------------------------------------ to_subtree
     def raw_tree(S, name="t", size=None):
@@ -542,9 +547,9 @@ def register_subtree(R):
           **TS, notes=FIXED_NOTE)
 
     # ------------------------------------------------------------------ get_subtree_impl (traverse client rule)
-    def gs_setup(kind):
+    def gs_setup(kind, size=None):
         def f(S):
-            t = raw_tree(S)
+            t = raw_tree(S, size=size)
             r = S.int("start")
             G = Obj(GhostList, dict(at=SArr(z3.K(I, z3.IntVal(-1)), nof(t), "int", name="at")))  # ghost: at[x] = position of node x in `ids`
             out = None if kind == "none" else (PList([7, 8]) if kind == "list" else S.pdict("int", name="out_mapping"))
@@ -654,24 +659,28 @@ def register_subtree(R):
     GS_POSTS = ["descendants-are-the-start-node-and-every-node-whose-parent-is-a-descendant", "exactly-the-start-node-and-its-descendants-each-once",
                 "start-node-is-the-new-root-without-parent", "parents-precede-children-and-the-parent-relation-is-kept",
                 "survivors-keep-every-attribute-in-fresh-storage", "mapping-reported"]
+    GS = dict(requires=[wf_clause(w) for w in WF] + [("start-node-in-range", gs_start_in_range)],
+              returns=gs_result, modifies=["out_mapping"], inlined_loops={f"{IMPL}:to_subtree_impl": DICT_LOOP},
+              ensures=[(nm, gs_post(nm)) for nm in GS_POSTS],
+              options=dict(traverse_rule=Rule(gs_J, modifies=[("ids", "int"), "G6"], enter_kind="oref", ghost_enter=gs_ghost_enter),
+                           asserts_after={"sub_ids": [("parent-entry-choice-function", gs_define_ppos)]}))
     R.add(f"{IMPL}:get_subtree_impl", prop="C06",
           variants={"no-mapping-requested": gs_setup("none"), "mapping-into-a-list": gs_setup("list"), "mapping-into-a-dict": gs_setup("dict")},
-          requires=[wf_clause(w) for w in WF] + [("start-node-in-range", gs_start_in_range)],
-          returns=gs_result, modifies=["out_mapping"], inlined_loops={f"{IMPL}:to_subtree_impl": DICT_LOOP},
-          ensures=[(nm, gs_post(nm)) for nm in GS_POSTS],
-          options=dict(traverse_rule=Rule(gs_J, modifies=[("ids", "int"), "G6"], enter_kind="oref", ghost_enter=gs_ghost_enter),
-                       asserts_after={"sub_ids": [("parent-entry-choice-function", gs_define_ppos)]}),
+          **GS,
           notes="mapping = the pre-order list of the subtree; the input is frozen; used modularly by get_subtree / Tree.Node.subtree "
                 "(ghost outputs: mapping, the descendant predicate)")
+    # the same contract on trees of a fixed small number of rows (any start node)
+    R.add(f"{IMPL}:get_subtree_impl", prop="C06",
+          variants={f"{fixed_name(m)}, no-mapping-requested": gs_setup("none", size=m) for m in FIXED_SIZES}, **GS, notes=FIXED_NOTE)
 
     # ------------------------------------------------------------------ get_subtree / Tree.Node.subtree: thin wrappers over get_subtree_impl
     from contracts.C09 import node_obj
 
     TREE = "swcgeom/core/tree.py"
 
-    def gw_setup(form, kind):
+    def gw_setup(form, kind, size=None):
         def f(S):
-            t = raw_tree(S)
+            t = raw_tree(S, size=size)
             out = None if kind == "none" else (S.plist("int", name="out_mapping") if kind == "list" else S.pdict("int", name="out_mapping"))
             if form == "function":
                 return dict(swc_like=t, n=S.int("start"), out_mapping=out)
@@ -717,11 +726,13 @@ def register_subtree(R):
     GW_POSTS = ["delegates-to-the-impl-with-this-tree-this-start-node-and-the-callers-mapping-object", "tree-built-from-exactly-the-impls-tuple"] + GS_POSTS + ["result-shares-no-storage-with-the-input"]
     for form, key, tn in (("function", f"{TU}:get_subtree", "swc_like"), ("method", f"{TREE}:Tree.Node.subtree", None)):
         getter = (lambda v: v["swc_like"]) if form == "function" else (lambda v: v["self"].fields["attach"])
+        GW = dict(requires=[wf_clause(w, getter) for w in WF] + [("start-node-in-range", gw_pre(form))],
+                  ensures=[(nm, gw_post(form, nm)) for nm in GW_POSTS])
         R.add(key, prop="C06",
               variants={"no-mapping-requested": gw_setup(form, "none"), "mapping-into-a-list": gw_setup(form, "list"), "mapping-into-a-dict": gw_setup(form, "dict")},
-              requires=[wf_clause(w, getter) for w in WF] + [("start-node-in-range", gw_pre(form))],
-              ensures=[(nm, gw_post(form, nm)) for nm in GW_POSTS],
-              notes="thin wrapper: get_subtree_impl through its proved contract, then the Tree constructor (interpreted from source)")
+              **GW, notes="thin wrapper: get_subtree_impl through its proved contract, then the Tree constructor (interpreted from source)")
+        # the same contract on trees of a fixed small number of rows
+        R.add(key, prop="C06", variants={f"{fixed_name(m)}, no-mapping-requested": gw_setup(form, "none", size=m) for m in FIXED_SIZES}, **GW, notes=FIXED_NOTE)
 
     from pyvc.engine import Unsupported
 
@@ -749,9 +760,9 @@ def register_cut_tree(R):
         E.prove(f"cut_tree/call:{who}/pre/callback-receives-a-handle-on-the-input-tree", ok, "precondition")
         return to_z3(node.fields["idx"], "int")
 
-    def setup(mode):
+    def setup(mode, size=None):
         def f(S):
-            t = K["raw_tree"](S)
+            t = K["raw_tree"](S, size=size)
             n = nof(t)
             G = Obj(GhostList, dict(at=SArr(z3.K(I, z3.IntVal(-1)), n, "int", name="at"),                       # position of a node in `removals`
                                     flag=SArr(z3.K(I, z3.BoolVal(False)), n, "bool", name="flag"),               # leave form: flag the callback returned at x
@@ -898,16 +909,21 @@ def register_cut_tree(R):
     CT_POSTS = ["removal-closure-is-removed-or-below-a-removed-node", "survivors-are-exactly-the-nodes-outside-the-closure-in-order", "survivors-keep-every-attribute",
                 "ids-are-positions-and-parent-relation-kept", "result-shares-no-storage-with-the-input"]
     LABEL = {"removal-closure-is-removed-or-below-a-removed-node": "removed-iff-designated-by-the-callback-or-below-a-removed-node"}
+    CT = dict(requires=[K["wf_clause"](w, "tree") for w in K["WF"]],
+              ghost_entry=define_designated,
+              ensures=[(LABEL.get(nm, nm), post(nm)) for nm in CT_POSTS] + [("leave-callback-handed-its-childrens-values-in-order", post("callback-handed-its-childrens-values-in-order"))],
+              options=dict(traverse_rule=Rule(J, Qe=Qe, Ql=Ql, modifies=[(REM, "int"), "G6"], enter_kind=lambda E: (fresh("oref", "pv"), fresh("bool", "pr")), leave_kind="oref",
+                                              ghost_enter=ghost_step, ghost_leave=ghost_step),
+                           hints={"post/removed-iff-designated-by-the-callback-or-below-a-removed-node": induction_hint}))
     R.add(f"{TU}:cut_tree", prop="C06",
           variants={"enter callback": setup("enter"), "leave callback": setup("leave"), "neither (plain copy)": setup("neither")},
-          requires=[K["wf_clause"](w, "tree") for w in K["WF"]],
-          ghost_entry=define_designated,
-          ensures=[(LABEL.get(nm, nm), post(nm)) for nm in CT_POSTS] + [("leave-callback-handed-its-childrens-values-in-order", post("callback-handed-its-childrens-values-in-order"))],
-          options=dict(traverse_rule=Rule(J, Qe=Qe, Ql=Ql, modifies=[(REM, "int"), "G6"], enter_kind=lambda E: (fresh("oref", "pv"), fresh("bool", "pr")), leave_kind="oref",
-                                          ghost_enter=ghost_step, ghost_leave=ghost_step),
-                       hints={"post/removed-iff-designated-by-the-callback-or-below-a-removed-node": induction_hint}),
+          **CT,
           notes="enter form: the user callback is an uninterpreted function of (node, incoming value); leave form: arbitrary results recorded in ghost "
                 "observation arrays; to_subtree is used through its proved contract; the input tree is frozen")
+    # the same contract on trees of a fixed small number of rows
+    R.add(f"{TU}:cut_tree", prop="C06",
+          variants={f"{fixed_name(m)}, {nm}": setup(mode, size=m) for m in FIXED_SIZES for mode, nm in (("enter", "enter callback"), ("leave", "leave callback"))},
+          **CT, notes=FIXED_NOTE)
 
     # ------------------------------------------------------------------ the nested closures on their own (their clauses are POSTCONDITIONS here)
     from contracts.C09 import node_obj
@@ -1259,10 +1275,10 @@ def register_order_call(R):
     TT = "swcgeom/transforms/tree.py"
     REM = local_collection_name(f"{TU}:cut_tree", "list")  # the local list of the inlined cut_tree
 
-    def setup(S):
+    def setup(S, size=None):
         from swcgeom.transforms.tree import CutByFurcationOrder
 
-        t = K["raw_tree"](S)
+        t = K["raw_tree"](S, size=size)
         G = Obj(GhostList, dict(at=SArr(z3.K(I, z3.IntVal(-1)), nof(t), "int", name="at")))  # position of a node in cut_tree's `removals`
         return dict(self=S.obj(CutByFurcationOrder, max_furcation_order=S.int("kmax")), x=t, __ghost__=dict(G6=G))
 
@@ -1396,15 +1412,17 @@ def register_order_call(R):
     POSTS = ["a-furcation-is-a-node-that-two-distinct-rows-name-as-parent", "removed-iff-the-furcation-level-reaches-the-order",
              "survivors-are-exactly-the-nodes-outside-the-closure-in-order", "survivors-keep-every-attribute",
              "ids-are-positions-and-parent-relation-kept", "result-shares-no-storage-with-the-input"]
-    R.add(f"{TT}:CutByFurcationOrder.__call__", prop="C06", setup=setup,
-          requires=[K["wf_clause"](w, "x") for w in K["WF"]],
-          ensures=[(nm, post(nm)) for nm in POSTS],
-          options=dict(traverse_rule=Rule(J, Qe=Qe, modifies=[(REM, "int"), G6], enter_kind=lambda E: (fresh("int", "plevel"), fresh("bool", "premoved")), ghost_enter=ghost_enter),
-                       count_model="rank-select",
-                       hints={"enter/invariant-preserved": count_hint, "post/a-furcation-is-a-node-that-two-distinct-rows-name-as-parent": furc_hint,
-                              "post/removed-iff-the-furcation-level-reaches-the-order": induction_hint}),
+    OC = dict(requires=[K["wf_clause"](w, "x") for w in K["WF"]],
+              ensures=[(nm, post(nm)) for nm in POSTS],
+              options=dict(traverse_rule=Rule(J, Qe=Qe, modifies=[(REM, "int"), G6], enter_kind=lambda E: (fresh("int", "plevel"), fresh("bool", "premoved")), ghost_enter=ghost_enter),
+                           count_model="rank-select",
+                           hints={"enter/invariant-preserved": count_hint, "post/a-furcation-is-a-node-that-two-distinct-rows-name-as-parent": furc_hint,
+                                  "post/removed-iff-the-furcation-level-reaches-the-order": induction_hint}))
+    R.add(f"{TT}:CutByFurcationOrder.__call__", prop="C06", setup=setup, **OC,
           notes="cut_tree and the callback _enter are interpreted from source (inlined) under the traverse rule; to_subtree through its proved contract; "
                 "level(root) = 0, level(x) = level(parent) + [x has more than one child]; removed iff level >= max_furcation_order")
+    # the same contract on trees of a fixed small number of rows
+    R.add(f"{TT}:CutByFurcationOrder.__call__", prop="C06", variants={fixed_name(m): (lambda S, m=m: setup(S, size=m)) for m in FIXED_SIZES}, **OC, notes=FIXED_NOTE)
 
 
 _reg6e = register
@@ -1581,8 +1599,8 @@ def register_neurites(R):
     nof, col, sel = K["nof"], K["col"], K["sel"]
     TREE = "swcgeom/core/tree.py"
 
-    def setup(S):
-        return dict(self=K["raw_tree"](S), type_check=S.bool("type_check"))
+    def setup(S, size=None):
+        return dict(self=K["raw_tree"](S, size=size), type_check=S.bool("type_check"))
 
     def soma_wrong(E, v, o):
         t = v["self"]
@@ -1641,14 +1659,16 @@ def register_neurites(R):
     for name, dendrites in (("get_neurites", False), ("get_dendrites", True)):
         labels = ["source-items-are-the-children-of-the-soma-each-once-in-row-order", "a-child-contributes-a-tree-iff-it-is-wanted"] + \
                  [w for w in K["GS_POSTS"] if w != "mapping-reported"] + ["result-shares-no-storage-with-the-input"]
-        R.add(f"{TREE}:Tree.{name}", prop="C06", setup=setup,
-              requires=[K["wf_clause"](w, "self") for w in K["WF"]],
-              raises={"ValueError": ("only-when-the-type-check-is-on-and-node-0-is-not-a-soma", soma_wrong)},
-              ghost_exit=probe,
-              ensures=[("a-normal-return-means-the-soma-check-passed-or-was-not-asked-for", lambda E, v, o: z3.Not(soma_wrong(E, o, o)))] + [(("every-dendrite-typed-child-and-no-other-contributes-a-tree" if dendrites else "every-child-contributes-a-tree") if w == "a-child-contributes-a-tree-iff-it-is-wanted" else w, post(w, dendrites)) for w in labels],
-              options=dict(models=ext_C06.MODELS),
+        NE = dict(requires=[K["wf_clause"](w, "self") for w in K["WF"]],
+                  raises={"ValueError": ("only-when-the-type-check-is-on-and-node-0-is-not-a-soma", soma_wrong)},
+                  ghost_exit=probe,
+                  ensures=[("a-normal-return-means-the-soma-check-passed-or-was-not-asked-for", lambda E, v, o: z3.Not(soma_wrong(E, o, o)))] + [(("every-dendrite-typed-child-and-no-other-contributes-a-tree" if dendrites else "every-child-contributes-a-tree") if w == "a-child-contributes-a-tree-iff-it-is-wanted" else w, post(w, dendrites)) for w in labels],
+                  options=dict(models=ext_C06.MODELS))
+        R.add(f"{TREE}:Tree.{name}", prop="C06", setup=setup, **NE,
               notes="the result is a generator: it is described by an arbitrary position of its source (the children of node 0 in row order): "
                     "whether that child contributes, and that its tree is the subtree rooted at it (get_subtree_impl through its proved contract)")
+        # the same contract on trees of a fixed small number of rows
+        R.add(f"{TREE}:Tree.{name}", prop="C06", variants={fixed_name(m): (lambda S, m=m: setup(S, size=m)) for m in FIXED_SIZES}, **NE, notes=FIXED_NOTE)
 
 
 _reg6g = register
@@ -1670,11 +1690,11 @@ def register_short_tip_call(R):
     TT = "swcgeom/transforms/tree.py"
     LEAVE = f"{TT}:CutShortTipBranch._leave"
 
-    def setup(with_callback):
+    def setup(with_callback, size=None):
         def f(S):
             from swcgeom.transforms.tree import CutShortTipBranch
 
-            t = K["raw_tree"](S)
+            t = K["raw_tree"](S, size=size)
             cbs = PList([S.callback("user_callback", lambda E, a, kw: None)] if with_callback else [])
             G = Obj(GhostList, dict(at=SArr(z3.K(I, z3.IntVal(-1)), nof(t), "int", name="at")))  # ghost: position of a node in `removals`
             return dict(self=S.obj(CutShortTipBranch, thre=S.real("thre"), callbacks=cbs), x=t, __ghost__=dict(G6=G))
@@ -1909,17 +1929,20 @@ def register_short_tip_call(R):
              "ids-are-positions-and-parent-relation-kept", "result-shares-no-storage-with-the-input", "callbacks-restored"]
     LABEL = {"removal-closure-is-removed-or-below-a-removed-node": "removed-iff-first-node-of-a-tip-branch-within-the-threshold-at-a-furcation-or-below-a-removed-node",
              "callbacks-restored": "the-callback-list-is-as-it-was"}
+    SC = dict(requires=[K["wf_clause"](w, "x") for w in K["WF"]],
+              ensures=[(LABEL.get(nm, nm), post(nm)) for nm in POSTS],
+              inlined_loops={LEAVE: {0: FOR_LOOP, 1: K["WALK_LOOP"]}},
+              options=dict(traverse_rule=Rule(J, Ql=Ql, modifies=[lambda E: (recorder_list(E.cur_frame), "int"), G6], leave_args_at=leave_args, leave_result=leave_result, ghost_leave=ghost_leave),
+                           models=ext_C06.MODELS,
+                           hints={"post/a-furcation-is-a-node-that-two-distinct-rows-name-as-parent": furc_hint, "loop0/preserved/earlier-entries-kept-and-one-new-entry-per-short-tip-chain-child-so-far": for_hint, "leave/invariant-preserved": leave_hint,
+                                  }))
     R.add(f"{TT}:CutShortTipBranch.__call__", prop="C06",
           variants={"no user callback": setup(False), "with a user callback": setup(True)},
-          requires=[K["wf_clause"](w, "x") for w in K["WF"]],
-          ensures=[(LABEL.get(nm, nm), post(nm)) for nm in POSTS],
-          inlined_loops={LEAVE: {0: FOR_LOOP, 1: K["WALK_LOOP"]}},
-          options=dict(traverse_rule=Rule(J, Ql=Ql, modifies=[lambda E: (recorder_list(E.cur_frame), "int"), G6], leave_args_at=leave_args, leave_result=leave_result, ghost_leave=ghost_leave),
-                       models=ext_C06.MODELS,
-                       hints={"post/a-furcation-is-a-node-that-two-distinct-rows-name-as-parent": furc_hint, "loop0/preserved/earlier-entries-kept-and-one-new-entry-per-short-tip-chain-child-so-far": for_hint, "leave/invariant-preserved": leave_hint,
-                              }),
+          **SC,
           notes="_leave is interpreted from source (inlined) under the traverse rule for ANY number of children; to_subtree through its proved contract; "
                 "tip branch = a child of a furcation below which a single chain runs to a tip; its length is measured from the furcation")
+    # the same contract on trees of a fixed small number of rows
+    R.add(f"{TT}:CutShortTipBranch.__call__", prop="C06", variants={f"{fixed_name(m)}, no user callback": setup(False, size=m) for m in FIXED_SIZES}, **SC, notes=FIXED_NOTE)
 
 
 _reg6h = register
